@@ -94,7 +94,38 @@ func ruleConstructorWiring(c *Ctx, t *thrModel, ruleRBC, ruleSync string) {
 		}
 		id := strip(ctor.Params[0])
 		nR, nS := 0, 0
-		for _, clo := range WithAnon(ctor) {
+		// the constructor's literals, and those made for it by closure factories it calls
+		type ctorFn struct {
+			fn *ssa.Function
+			fc *ssa.Call // the factory call the literal comes from (nil: written in the constructor)
+		}
+		var fns []ctorFn
+		for _, f := range WithAnon(ctor) {
+			fns = append(fns, ctorFn{f, nil})
+		}
+		for _, in := range instrsOf(ctor) {
+			if cl, ok := in.(*ssa.Call); ok {
+				if mc, fc := closureLiteral(cl); mc != nil && fc != nil && pkgPathOf(fc.Call.StaticCallee()) == PkgThreshold {
+					for _, f := range WithAnon(fc.Call.StaticCallee()) {
+						fns = append(fns, ctorFn{f, fc})
+					}
+				}
+			}
+		}
+		isID := func(v ssa.Value, fc *ssa.Call) bool {
+			if v == nil {
+				return false
+			}
+			if t.sl.rootOf(v) == id {
+				return true
+			}
+			if a := factoryArg(v, fc); a != nil {
+				return strip(a) == id || t.sl.rootOf(a) == id
+			}
+			return false
+		}
+		for _, cf := range fns {
+			clo := cf.fn
 			for _, in := range instrsOf(clo) {
 				a, ok := in.(*ssa.Alloc)
 				if !ok {
@@ -109,7 +140,7 @@ func ruleConstructorWiring(c *Ctx, t *thrModel, ruleRBC, ruleSync string) {
 					av, _ := structLitFieldValue(a, fAck)
 					fv, _ := structLitFieldValue(a, fFwd)
 					okN := nv != nil && len(clo.Params) == 3 && strip(nv) == strip(clo.Params[2])
-					okS := sv != nil && t.sl.rootOf(sv) == id
+					okS := isID(sv, cf.fc)
 					okA, okF := false, false
 					if mc, isMC := strip(av).(*ssa.MakeClosure); av != nil && isMC && len(clo.Params) == 3 {
 						okA = forwardsUnchanged(mc.Fn.(*ssa.Function), clo.Params[0])
@@ -126,7 +157,7 @@ func ruleConstructorWiring(c *Ctx, t *thrModel, ruleRBC, ruleSync string) {
 					iv, _ := structLitFieldValue(a, fMID)
 					bv, _ := structLitFieldValue(a, fMB)
 					sv, _ := structLitFieldValue(a, fMS)
-					ok := len(clo.Params) == 3 && mv != nil && strip(mv) == strip(clo.Params[0]) && iv != nil && t.sl.rootOf(iv) == id &&
+					ok := len(clo.Params) == 3 && mv != nil && strip(mv) == strip(clo.Params[0]) && isID(iv, cf.fc) &&
 						bv != nil && strip(bv) == strip(clo.Params[1]) && sv != nil && strip(sv) == strip(clo.Params[2])
 					c.Check(ok, ruleSync, FuncName(clo), "disc.Member built from the factory's arguments", m.Pos(a.Pos()),
 						"Membership ← members, ID ← id, Broadcast/Send ← the factory's callbacks",
